@@ -15,7 +15,7 @@ ASSUMPTIONS = [
 ]
 
 HOOK_COMMITS = ["aa112f6"]
-FIX_COMMITS = ["536bdea", "2163003", "086d718", "eebbb00", "ae8746e", "813750d", "4dcfce1"]
+FIX_COMMITS = ["536bdea", "2163003", "086d718", "eebbb00", "ae8746e", "813750d", "4dcfce1", "affca7a", "6634824", "7638f19", "8a1300b", "fe98d51"]
 NOT_YET = {}
 
 CFG = {
@@ -32,6 +32,13 @@ CFG = {
         "level_note": "Trusted: Lean kernel, Mathlib, hand-written model validated by the correspondence run; the 6*tol length bound of the oracle is argued in DESIGN.md, not proved; rounding not analysed.",
         "files": ["src/geom2/curve2.rs", "src/airfoil/helpers.rs"],
         "tol": {"*": 1e-9},
+    },
+    "C05": {
+        "cases": {"quick": 1600, "thorough": 160000},
+        "level_text": "Theorems (ℝ) about the position lists of the three resampling modes (first 0, last L, all inside [0,L]; max-spacing count gives spacing ≤ max; spacing mode centred with margins < spacing), the segment-distance used by Ramer-Douglas-Peucker (line-distance counter-example = pre-fix witness), RDP keeps ends and a subsequence, gap counts. Model tied to the Rust by a differential run (2-D and 3-D curves, closed rings, lengths 1e-2..1e3).",
+        "level_note": "Trusted: Lean kernel, Mathlib, hand-written model validated by the correspondence run; rounding not analysed.",
+        "files": ["src/geom2/curve2.rs", "src/geom3/curve3.rs", "src/common/points.rs"],
+        "tol": {"*": 1e-9, "curve.resample": 1e-7},
     },
     "C12": {
         "cases": {"quick": 1600, "thorough": 160000},
